@@ -129,6 +129,17 @@ def sexp(n: Node) -> str:
         f, ftbl, mask = a
         t = "( none )" if ftbl is None else "( " + _tbl(ftbl) + " )"
         return f"( optflagged {hx(f)} {t} {hx(mask)} {ch[0]} )"
+    if k == "ctxswitch":
+        f, keys = a
+        return f"( ctxswitch {hx(f)} " + " ".join(f"( {'none' if kk is None else hx(kk)} {c} )" for kk, c in zip(keys, ch)) + " )"
+    if k == "ctxadapter":
+        f, opts = a
+        os_ = " ".join(f"( {'none' if kk is None else hx(kk)} {'( none )' if ad is None else _adapter_sx(ad)} )" for kk, ad in opts)
+        return f"( ctxadapter {hx(f)} ( {os_} ) {ch[0]} )"
+    if k == "flagswitch":
+        tbl, sg, w, choices = a
+        return (f"( flagswitch ( {_tbl(tbl)} ) {_ip(sg, w)} "
+                + " ".join(f"( {hx(nm)} {hx(z)} {c} )" for (nm, z), c in zip(choices, ch)) + " )")
     if k == "coord":
         return f"( coord {a[0]} " + " ".join(ch) + " )"
     if k == "dataclass":
@@ -221,6 +232,17 @@ def node_of_sx(x) -> Node:
         return Node(h)
     if h == "tuple":
         return Node("tuple", (), [node_of_sx(c) for c in x[1:]])
+    if h == "ctxswitch":
+        cs = x[2:]
+        return Node("ctxswitch", (int(x[1], 16), tuple(None if c[0] == "none" else int(c[0], 16) for c in cs)),
+                    [node_of_sx(c[1]) for c in cs])
+    if h == "ctxadapter":
+        opts = tuple((None if o[0] == "none" else int(o[0], 16), None if o[1] == ["none"] else _padapter(o[1])) for o in x[2])
+        return Node("ctxadapter", (int(x[1], 16), opts), [node_of_sx(x[3])])
+    if h == "flagswitch":
+        cs = x[4:]
+        return Node("flagswitch", (_ptbl(x[1]),) + _pip(x[2], x[3]) + (tuple((int(c[0], 16), int(c[1], 16)) for c in cs),),
+                    [node_of_sx(c[2]) for c in cs])
     if h == "coord":
         return Node("coord", (x[1],), [node_of_sx(c) for c in x[2:]])
     if h == "dataclass":
@@ -430,6 +452,21 @@ def build(n: Node):
         f, ftbl, mask = a
         fspec = se.U32 if ftbl is None else se.IntFlag(flag_cls(ftbl), se.U32)
         o = se.OptionalFlagged(key_name(f), fspec, mask, ch[0])
+    elif k == "ctxswitch":
+        f, keys = a
+        kn = key_name(f)
+        o = se.ContextSwitch(lambda ctx, kn=kn: ctx[kn], {(se.MISSING if kk is None else kk): c for kk, c in zip(keys, ch)})
+    elif k == "ctxadapter":
+        f, opts = a
+        kn = key_name(f)
+        objs = [se.IdentityAdapter() if ad is None else _build_sadapter(ad, None) for _, ad in opts]
+        n.x["opt_objs"] = objs
+        o = se.ContextAdapter(lambda ctx, kn=kn: ctx[kn], ch[0],
+                              {(se.MISSING if kk is None else kk): ob for (kk, _), ob in zip(opts, objs)})
+    elif k == "flagswitch":
+        tbl, sg, w, choices = a
+        cls = flag_cls(tbl)
+        o = se.FlagSwitch(se.IntFlag(cls, iprim_obj(sg, w)), {cls["F%d" % nm]: c for (nm, z), c in zip(choices, ch)})
     elif k == "coord":
         o = _build_coord(n)
     elif k == "dataclass":
@@ -477,12 +514,12 @@ def delimited(n: Node) -> bool:
         return False
     if k in ("bytesterm", "cstr"):
         return a[1]
-    if k in ("tuple", "template", "enumswitch", "coord", "dataclass"):
+    if k in ("tuple", "template", "enumswitch", "coord", "dataclass", "ctxswitch", "flagswitch"):
         return all(delimited(c) for c in n.ch)
     if k == "coll":
         lk = a[0]
         return lk[0] == "prefixed" or (lk[0] == "fixed" and lk[1] != 0)
-    if k in ("opt", "adapter", "optflagged"):
+    if k in ("opt", "adapter", "optflagged", "ctxadapter"):
         return delimited(n.ch[0])
     if k == "typed":
         if a[0][0] == "term":
@@ -512,8 +549,10 @@ def min_size(n: Node) -> int:
         return lk[2] if lk[0] == "prefixed" else (lk[1] * min_size(n.ch[0]) if lk[0] == "fixed" else 0)
     if k == "opt":
         return 1
-    if k == "adapter":
+    if k in ("adapter", "ctxadapter"):
         return min_size(n.ch[0])
+    if k == "flagswitch":
+        return a[2]
     if k == "typed":
         tk = a[0]
         return tk[2] if tk[0] == "array" else (tk[1] if tk[0] == "fixed" else 0)
@@ -560,8 +599,12 @@ def exact_size(n: Node):
 def refs(n: Node):
     """Spec.refs: sibling names the spec reads from its context (sequences and templates rebind it)"""
     k = n.k
-    if k == "optflagged":
+    if k in ("optflagged", "ctxadapter"):
         return [n.a[0]] + refs(n.ch[0])
+    if k == "ctxswitch":
+        return [n.a[0]] + [r for c in n.ch for r in refs(c)]
+    if k == "flagswitch":
+        return [r for c in n.ch for r in refs(c)]
     if k in ("opt", "adapter", "typed", "ifpresent"):
         return refs(n.ch[0])
     if k in ("lenswitch", "enumswitch"):
@@ -601,8 +644,13 @@ def wf(n: Node, ext=False) -> bool:
                 return False
             seen.append(nm)
         return all(wf(c, ext) for c in n.ch) and _butlast([delimited(c) for c in n.ch]) and _nodup(a[0])
-    if k == "optflagged":
+    if k in ("optflagged", "ctxadapter"):
         return wf(n.ch[0], ext)
+    if k == "ctxswitch":
+        return all(wf(c, ext) for c in n.ch)
+    if k == "flagswitch":
+        return (all(wf(c, ext) for c in n.ch) and _butlast([delimited(c) for c in n.ch])
+                and _nodup([nm for nm, _ in a[3]]))
     if k == "coll":
         c = n.ch[0]
         lk = a[0]
@@ -672,7 +720,24 @@ def _bytes_like(v):
     return isinstance(v, (bytes, bytearray, memoryview))
 
 
-def to_sx(n: Node, pod: bool, v) -> str:
+def ctx_choice(n: Node, ctxd) -> int:
+    """index of the option the REAL ContextSwitch / ContextAdapter selects for the enclosing dict"""
+    se, _ = mods()
+    if ctxd is None:
+        raise Shape("no enclosing template")
+    obj = build(n)
+    try:
+        chosen = obj._choose_option(se.ParseContext(ctxd))
+    except Exception:
+        raise Shape("no option")
+    pool = [build(c) for c in n.ch] if n.k == "ctxswitch" else n.x["opt_objs"]
+    for i, o in enumerate(pool):
+        if o is chosen:
+            return i
+    raise Shape("option not found")
+
+
+def to_sx(n: Node, pod: bool, v, ctxd=None) -> str:
     """spec-directed translation of a Python value to the model's value term.  Raises Shape when the
     value does not have the representation the model uses for this spec and mode."""
     _, dt = mods()
@@ -704,7 +769,10 @@ def to_sx(n: Node, pod: bool, v) -> str:
         if isinstance(v, dt.UUID):
             return f"( uuid {hb(v.bytes)} )"
         if isinstance(v, str):
-            u = dt.UUID(v)
+            try:
+                u = dt.UUID(v)
+            except ValueError:
+                raise Shape("not a uuid")
             if str(u) != v:
                 raise Shape("non-canonical uuid text")
             return f"( uuidstr {hb(u.bytes)} )"
@@ -741,7 +809,7 @@ def to_sx(n: Node, pod: bool, v) -> str:
         keys = tkeys(n)
         if set(d) != set(keys):
             raise Shape("keys")
-        return "( d " + " ".join(f"( {hx(nm)} {to_sx(c, pod, d[kk])} )" for nm, kk, c in zip(a[0], keys, n.ch)) + " )"
+        return "( d " + " ".join(f"( {hx(nm)} {to_sx(c, pod, d[kk], d)} )" for nm, kk, c in zip(a[0], keys, n.ch)) + " )"
     if k == "tuple":
         if not isinstance(v, (list, tuple)) or len(v) != len(n.ch):
             raise Shape("sequence expected")
@@ -752,7 +820,7 @@ def to_sx(n: Node, pod: bool, v) -> str:
         names = tkeys(n)
         if set(v) - set(names):
             raise Shape("extra keys")
-        parts = [f"( {hx(nm)} {to_sx(c, pod, v[kk])} )" for nm, kk, c in zip(a[0], names, n.ch) if kk in v]
+        parts = [f"( {hx(nm)} {to_sx(c, pod, v[kk], v)} )" for nm, kk, c in zip(a[0], names, n.ch) if kk in v]
         return "( d " + " ".join(parts) + " )" if parts else "( d )"
     if k == "coll":
         if not isinstance(v, (list, tuple)):
@@ -761,12 +829,39 @@ def to_sx(n: Node, pod: bool, v) -> str:
     if k in ("opt", "ifpresent", "optflagged"):
         if v is None:
             return "( none )"
+        return to_sx(n.ch[0], pod, v, ctxd)
+    if k == "ctxswitch":
+        # the value has the representation of the branch that the context selects
+        return to_sx(n.ch[ctx_choice(n, ctxd)], pod, v, ctxd)
+    if k == "ctxadapter":
+        if isinstance(v, str):
+            return _enum_sx(v, v[:1])
+        if isinstance(v, int):
+            return f"( i {hx(int(v))} )"
+        if isinstance(v, (tuple, list)):
+            return "( l " + " ".join(_enum_sx(x, "F") for x in v) + " )" if v else "( l )"
         return to_sx(n.ch[0], pod, v)
+    if k == "flagswitch":
+        if not isinstance(v, dict):
+            raise Shape("dict expected")
+        cls = flag_cls(a[0])
+        parts, used = [], 0
+        for (nm, z), c in zip(a[3], n.ch):
+            m = cls["F%d" % nm]
+            if m in v:
+                parts.append(f"( {hx(nm)} {to_sx(c, pod, v[m], ctxd)} )")
+                used += 1
+            elif m.name in v:
+                parts.append(f"( {hx(nm)} {to_sx(c, pod, v[m.name], ctxd)} )")
+                used += 1
+        if used != len(v):
+            raise Shape("keys outside the choices")
+        return "( d " + " ".join(parts) + " )" if parts else "( d )"
     if k == "typed":
         v = getattr(v, "__wrapped__", v)          # lazy TypedBytes: force the proxy
         if v is None and a[1]:
             return "( none )"
-        return to_sx(n.ch[0], pod, v)
+        return to_sx(n.ch[0], pod, v, ctxd)
     if k == "adapter":
         ad = a[0]
         if ad[0] == "opaque":
@@ -924,7 +1019,13 @@ def _from_sadapter(ad, x, names=None):
     raise Shape(h)
 
 
-def from_sx(n: Node, x, pod=False):
+def _unparse_sx(x):
+    if isinstance(x, list):
+        return "( " + " ".join(_unparse_sx(i) for i in x) + " )" if x else "( )"
+    return x
+
+
+def from_sx(n: Node, x, pod=False, ctxd=None):
     """model value term (parsed) -> Python value for the real classes (inverse of to_sx on its image)"""
     se, dt = mods()
     k, a = n.k, n.a
@@ -932,7 +1033,25 @@ def from_sx(n: Node, x, pod=False):
     if h == "none":
         return None
     if k in ("opt", "typed", "ifpresent", "optflagged"):
+        return from_sx(n.ch[0], x, pod, ctxd)
+    if k == "ctxswitch":
+        return from_sx(n.ch[ctx_choice(n, ctxd)], x, pod, ctxd)
+    if k == "ctxadapter":
+        if h == "name":
+            return "E" + str(int(x[1], 16))
+        if h == "l":
+            return tuple(("F" + str(int(i[1], 16))) if i[0] == "name" else int(i[1], 16) for i in x[1:])
+        if h == "i" and n.ch[0].k == "prim" and n.ch[0].a[0] != "f":
+            return int(x[1], 16)
         return from_sx(n.ch[0], x, pod)
+    if k == "flagswitch":
+        cls = flag_cls(a[0])
+        by = {nm: c for (nm, z), c in zip(a[3], n.ch)}
+        out = {}
+        for kv in x[1:]:
+            nm = int(kv[0], 16)
+            out[("F%d" % nm) if pod else cls["F%d" % nm]] = from_sx(by[nm], kv[1], pod)
+        return out
     if k == "adapter":
         ad = a[0]
         if ad[0] == "opaque":
@@ -1000,7 +1119,7 @@ def from_sx(n: Node, x, pod=False):
         out = {}
         for kv in x[1:]:
             c, kk = by[int(kv[0], 16)]
-            out[kk] = from_sx(c, kv[1], pod)
+            out[kk] = from_sx(c, kv[1], pod, out)
         if k == "dataclass" and not pod:
             return _make_dataclass(n, [build(c) for c in n.ch])(**out)
         return out
